@@ -214,8 +214,8 @@ def _walks(edges, inits, rng, n_walks=None, cover_all=False, maxlen=60):
 
 
 # ------------------------------------------------------------------------------------
-def _scenario(variant, N, S, R, start, length, rng, p_drop, p_dup, p_timeout, shuffle, coded=False):
-    spa, old = blocks(N, rng, coded=coded)
+def _scenario(variant, N, S, R, start, length, rng, p_drop, p_dup, p_timeout, shuffle, coded=False, tags=False):
+    spa, old = blocks(N, rng, coded=coded, tags=tags)
     rig = RIGS[variant](N, S, R, start, length, spa, old)
     nfaults = 0
     try:
@@ -264,7 +264,14 @@ def _scenario(variant, N, S, R, start, length, rng, p_drop, p_dup, p_timeout, sh
             rig.timeout()
         rig.collect()
         if not rig.done() and rig.sent <= R + 3:
-            raise env.MachineryError("transfer scenario did not terminate")
+            for _ in range(4):
+                rig.timeout()
+            rig.collect()
+            if not rig.done():
+                # every datagram was delivered or lost, every timeout has passed many times over, the request budget
+                # is not exceeded - and the transfer has neither succeeded nor failed
+                return {"req": {"start": start, "len": length}, "ev": rig.log, "variant": variant, "faults": nfaults,
+                        "ok": False, "sent": rig.sent, "never_ends": True}
         if rig.done():
             # stragglers: what is still in flight (duplicates, segments of abandoned attempts) arrives after
             # the transfer has returned - for the blocking stack back to back in the socket's buffer
@@ -315,7 +322,12 @@ def _second_transfer(N, S, R, start, length, rng):
                     rig.drop(vs[0]["m"])
                 continue
             rig.timeout()
-        if not rig.done() or rig.ok() or rig.block() != old:
+        for _ in range(3):
+            if not rig.done():
+                rig.timeout()
+        # (whether or not the library has cleaned the spent request away: its retries are used up, it has not
+        # succeeded, the client's copy is untouched - the application asks again)
+        if rig.ok() or rig.block() != old or rig.sent < 1 + R:
             return None
         rig.restart(start, length)
         guard = 0
@@ -465,6 +477,18 @@ def run(ctx):
                            "len_mod_S": length % S == 0}
                     ctx.violation(sig, {"start": start, "len": length, "N": N, "S": S,
                                         "note": "in-order, loss-free transfer against the bundled simulator failed"})
+    # ... and blocks that contain the protocol's own tag text (every content is a legal block)
+    for variant in ("async", "sync"):
+        for k in range(10 if quick else 200):
+            length = rng.choice([N, N, 400, 117, 80])
+            start = rng.randrange(0, N - length + 1)
+            lg = _scenario(variant, N, S, 2, start, length, rng, 0, 0, 0, False, tags=True)
+            lg["R"] = 2
+            lg["faultfree"] = True
+            ff.append(lg)
+            if not lg["ok"]:
+                ctx.violation({"clause": "fault-free-success", "variant": variant, "block": "contains-protocol-tag-text"},
+                              {"start": start, "len": length})
     logs += ff
     # histories: a fault-free transfer that follows a FAILED one on the same blocking structure
     for _ in range(8 if quick else 80):
@@ -477,6 +501,11 @@ def run(ctx):
             if not lg["ok"]:
                 ctx.violation({"clause": "fault-free-success", "variant": "sync", "after_failed_transfer": True},
                               {"start": lg["req"]["start"], "len": lg["req"]["len"]})
+    for lg in logs:
+        if lg.get("never_ends"):
+            ctx.violation({"clause": "transfer-neither-succeeds-nor-fails", "variant": lg["variant"]},
+                          {"req": lg["req"], "sent": lg["sent"], "R": lg["R"], "tail": lg["ev"][-8:]})
+    logs = [lg for lg in logs if not lg.get("never_ends")]
     groups = collections.defaultdict(list)
     for lg in logs:
         groups[(lg["variant"], lg["R"])].append(lg)
